@@ -202,6 +202,39 @@ static Outcome runCase(const KV& c)
                     return o;
                 }
                 o.cls("real_setup_run");
+                // the same object set up AGAIN for a neighbouring parameter set (one refinement more or less, another outer
+                // radius): grid() and the hierarchy must describe the new parameters, nothing of the first setup remains
+                const int div2     = div > 0 ? div - 1 : (nr_exp + div + 1 <= 6 ? div + 1 : div);
+                const double Rmax2 = div2 == div ? Rmax * 1.5 : Rmax;
+                if (div2 != div || Rmax2 != Rmax) {
+                    solver.divideBy2(div2);
+                    solver.Rmax(Rmax2);
+                    std::unique_ptr<PolarGrid> g2;
+                    try {
+                        g2 = std::make_unique<PolarGrid>(R0, Rmax2, nr_exp, nt_exp, refinement, aniso, div2);
+                    }
+                    catch (const std::exception&) {
+                    }
+                    if (g2 && (long)g2->nr() * g2->ntheta() <= 12000) {
+                        bool threw = false;
+                        int L2     = -1;
+                        try {
+                            L2 = GMGPolarVerifAccess::chooseNumberOfLevels(solver, *g2);
+                            solver.setup();
+                        }
+                        catch (const std::exception&) {
+                            threw = true;
+                        }
+                        if (!threw) {
+                            if (solver.grid().radii() != g2->radii() || solver.grid().angles() != g2->angles() ||
+                                GMGPolarVerifAccess::numberOfLevels(solver) != L2 || (int)GMGPolarVerifAccess::levels(solver).size() != L2) {
+                                o.fail("setup_again", "after a second setup() on the same object grid() / the hierarchy do not describe the new parameters");
+                                return o;
+                            }
+                            o.cls("second_setup_run");
+                        }
+                    }
+                }
             }
         }
     }
